@@ -9,6 +9,7 @@ package verifsvc
 import (
 	"fmt"
 	"math"
+	"os"
 	"sort"
 	"strings"
 	"testing"
@@ -347,6 +348,28 @@ func compareStream(req *streamv1.QueryRequest, a, c *streamv1.QueryResponse, dur
 				return kpG + ":stream:criteria+time-order:vectorized-answer-is-a-strict-prefix-of-row-answer", d
 			}
 		}
+		// which side is out of time order, and do both hold the same elements? (recorded for the reader of the replay)
+		sorted := func(r *streamv1.QueryResponse) bool {
+			desc := req.OrderBy != nil && req.OrderBy.Sort == modelv1.Sort_SORT_DESC
+			for i := 1; i < len(r.Elements); i++ {
+				x, y := r.Elements[i-1].Timestamp.AsTime(), r.Elements[i].Timestamp.AsTime()
+				if (desc && y.After(x)) || (!desc && y.Before(x)) {
+					d["first_out_of_order_index"] = i
+					return false
+				}
+			}
+			return true
+		}
+		ua, uc := map[int64]bool{}, map[int64]bool{}
+		for _, e := range a.Elements {
+			ua[elemUID(e)] = true
+		}
+		same := len(a.Elements) == len(c.Elements)
+		for _, e := range c.Elements {
+			uc[elemUID(e)] = true
+			same = same && ua[elemUID(e)]
+		}
+		d["same_elements"], d["first_answer_in_time_order"], d["second_answer_in_time_order"] = same, sorted(a), sorted(c)
 		return kpG + ":response-differs:stream", d
 	}
 	if len(a.Elements) != len(c.Elements) {
@@ -405,6 +428,7 @@ func TestVerifC15(t *testing.T) {
 // runDifferential feeds two servers the same rows and the same seeded programs and compares the answers
 // (kp prefixes the violation keys; la/lb name the two sides; settle, if given, waits until side A has all rows).
 func runDifferential(t *testing.T, s *verifh.Sink, vec, row *srv, kp, la, lb string, settle func(rows []qrow, arows []aggRow) bool) {
+	altReady := false
 	base := time.Date(2024, 5, 10, 0, 0, 0, 0, time.UTC)
 	lo, hi := base.Add(-time.Hour), base.Add(6*24*time.Hour)
 	// --- dataset A: the criteria/order workload of C08/C09 (streams + measures)
@@ -454,6 +478,33 @@ func runDifferential(t *testing.T, s *verifh.Sink, vec, row *srv, kp, la, lb str
 	}
 	setupAggWorld(t, vec, arows)
 	setupAggWorld(t, row, arows)
+	// --- dataset T: groups whose ranking differs from node to node. Five groups of six series each (spread over the
+	//     shards): g0 has a moderate value in every series, so its total is the largest although no single series -
+	//     and hence no node's partial - leads; g1..g3 hold one big series each; g4 mirrors g0 with negative values
+	//     (the smallest total). Any pruning of per-node partials before the coordinator has seen all of them misranks.
+	var trows []aggRow
+	for g := 0; g < 5; g++ {
+		for k := 0; k < 6; k++ {
+			for rep := 0; rep < 3; rep++ {
+				uid++
+				v := int64(0)
+				switch {
+				case g == 0:
+					v = 100 + int64(k)
+				case g == 4:
+					v = -100 - int64(k)
+				case k == g: // one leading series per group g1..g3
+					v = 170 - 10*int64(g)
+				default:
+					v = int64(k % 2)
+				}
+				trows = append(trows, aggRow{id: fmt.Sprintf("t%d%d", g, k), uid: uid, svc: fmt.Sprintf("g%d", g), region: fmt.Sprintf("r%d", k%2),
+					ts: base.Add(time.Duration(rep)*24*time.Hour + 10*time.Hour + time.Duration(g*6+k)*time.Second), v: v, fl: float64(v)})
+			}
+		}
+	}
+	setupAggWorldNamed(t, vec, trows, "mt", false)
+	setupAggWorldNamed(t, row, trows, "mt", false)
 	// --- dataset C: the same shape with null group-by tags (differential only). Null FIELD values are left out:
 	//     the row path answers an aggregation over a field holding a null with an empty result (FromFieldValue
 	//     fails, the iterator stops, the error is dropped), so it cannot serve as the yardstick there.
@@ -486,6 +537,25 @@ func runDifferential(t *testing.T, s *verifh.Sink, vec, row *srv, kp, la, lb str
 	if settle != nil && !settle(rows, arows) {
 		s.Inconclusive("side " + la + " did not hold all rows within the settle bound")
 		return
+	}
+	// every side (and the second coordinator) holds dataset T before it is queried
+	for _, sv := range []*srv{vec, row, vec.alt} {
+		if sv == nil {
+			continue
+		}
+		ok := false
+		for i := 0; i < 240 && !ok; i++ {
+			resp, err := sv.queryMeasure(&measurev1.QueryRequest{Groups: []string{"ga"}, Name: "mt", TimeRange: tsRange(lo, hi), Limit: 1000000,
+				TagProjection:   &modelv1.TagProjection{TagFamilies: []*modelv1.TagProjection_TagFamily{{Name: "default", Tags: []string{"uid"}}}},
+				FieldProjection: &measurev1.QueryRequest_FieldProjection{Names: []string{"v"}}})
+			if ok = err == nil && len(resp.DataPoints) == len(trows); !ok {
+				time.Sleep(500 * time.Millisecond)
+			}
+		}
+		if !ok {
+			s.Inconclusive("dataset T was not completely queryable on every side within the settle bound")
+			return
+		}
 	}
 	if kp == "c15" {
 		pq := aggQuery{name: "mc", groupBy: []string{"id"}, hasAgg: true, fn: modelv1.AggregationFunction_AGGREGATION_FUNCTION_SUM, field: "v", limit: 100}
@@ -643,6 +713,9 @@ func runDifferential(t *testing.T, s *verifh.Sink, vec, row *srv, kp, la, lb str
 			if r.Intn(3) == 0 {
 				q.name = "mb"
 				q.desc += " on mb (null group tags)"
+			} else if q.top > 0 && q.hasAgg && q.crit == nil && r.Intn(2) == 0 {
+				q.name = "mt"
+				q.desc += " on mt (node-local rankings differ)"
 			}
 			req := q.request(lo, hi)
 			desc = "measure-agg " + q.desc
@@ -689,14 +762,38 @@ func runDifferential(t *testing.T, s *verifh.Sink, vec, row *srv, kp, la, lb str
 					s.Count(kp+".top_answers_equal_up_to_ties", 1)
 				}
 			}
-			// C10: both servers' answers against the reference (group key -> aggregate)
-			for si, resp := range []*measurev1.QueryResponse{c, a} {
-				path := []string{lb, la}[si]
+			// C10: both servers' answers against the reference (group key -> aggregate); in a cluster also the answer of
+			// the second coordinator, which runs the other engine's distributed plan over the same data nodes
+			answers, paths := []*measurev1.QueryResponse{c, a}, []string{lb, la}
+			if vec.alt != nil {
+				alt, err := vec.alt.queryMeasure(proto.Clone(req).(*measurev1.QueryRequest))
+				for try := 0; err != nil && ev == nil && !altReady && try < 60; try++ { // the second coordinator learns the schema on its own
+					time.Sleep(500 * time.Millisecond)
+					alt, err = vec.alt.queryMeasure(proto.Clone(req).(*measurev1.QueryRequest))
+				}
+				if err == nil && alt != nil {
+					altReady = true
+					alt = normalizeMeasureResp(alt)
+					if q.top == 0 {
+						sortGroups(alt)
+					}
+					answers, paths = append(answers, alt), append(paths, la+"-row-coordinator")
+					s.Count("c10.svc.row_coordinator_answers", 1)
+				} else if ev == nil {
+					s.Violation("c10:svc:"+la+"-row-coordinator:error-on-this-coordinator-only", map[string]any{"query": q.desc, "err": fmt.Sprint(err)})
+				}
+			}
+			refRows := arows
+			if q.name == "mt" {
+				refRows = trows
+			}
+			for si, resp := range answers {
+				path := paths[si]
 				if resp == nil || q.name == "mb" {
 					continue
 				}
 				if q.hasAgg && q.top == 0 {
-					want := refAgg(arows, q)
+					want := refAgg(refRows, q)
 					got := map[string]int64{}
 					dup := false
 					for _, dp := range resp.DataPoints {
@@ -714,14 +811,14 @@ func runDifferential(t *testing.T, s *verifh.Sink, vec, row *srv, kp, la, lb str
 						key := "c10:svc:" + path + ":" + fnName(q.fn) + ":differs-from-reference"
 						if fnName(q.fn) == "MEAN" && strings.Contains(d, "clamped") {
 							key = "agg:int64:MEAN:clamped-to-1-when-mean-below-1"
-						} else if path == "cluster" && spansShards(q) && vec.replicas > 0 && !dup {
+						} else if strings.HasPrefix(path, "cluster") && spansShards(q) && vec.replicas > 0 && !dup {
 							key = "c10:svc:cluster:group-spanning-shards-with-replicas:partials-miscounted"
 						}
 						s.Violation(key, map[string]any{"query": q.desc, "path": path, "discrepancy": d, "group_returned_twice": dup, "groups_expected": len(want), "groups_returned": len(got)})
 					}
 				}
 				if q.top > 0 {
-					checkTop(s, resp, arows, q, path, path == "cluster" && spansShards(q) && vec.replicas > 0)
+					checkTop(s, resp, refRows, q, path, strings.HasPrefix(path, "cluster") && spansShards(q) && vec.replicas > 0)
 				}
 			}
 		}
@@ -760,7 +857,10 @@ func runDifferential(t *testing.T, s *verifh.Sink, vec, row *srv, kp, la, lb str
 			d := firstDifference(rv, rr)
 			d["program"] = desc
 			key := kp + ":response-differs:" + kind
-			if kp == "c17" && kind == "measure-agg" && vec.replicas > 0 && strings.Contains(desc, "group by svc") && !strings.Contains(desc, "MIN(") && !strings.Contains(desc, "MAX(") {
+			// groups that span shards: any group-by of datasets mb/mt (tags vary per row / groups hold several series),
+			// "group by svc" of dataset ma. A dropped partial also changes MIN/MAX, a doubled one does not.
+			spanning := strings.Contains(desc, " on mb") || strings.Contains(desc, " on mt") || (strings.Contains(desc, "group by svc") && !strings.Contains(desc, "group by svc,region"))
+			if kp == "c17" && kind == "measure-agg" && vec.replicas > 0 && spanning {
 				key = "c17:measure-agg:group-spanning-shards-with-replicas:partials-miscounted"
 			}
 			s.Violation(key, d)
@@ -768,7 +868,7 @@ func runDifferential(t *testing.T, s *verifh.Sink, vec, row *srv, kp, la, lb str
 	}
 	s.Count(kp+".vectorized_measure_handled_total", vmplan.HandledCount()-h0)
 	s.Count(kp+".vectorized_stream_queries_total", vstream.QueryCount()-s0)
-	if vmplan.HandledCount()-h0 == 0 && vstream.QueryCount()-s0 == 0 {
+	if vmplan.HandledCount()-h0 == 0 && vstream.QueryCount()-s0 == 0 && os.Getenv("VERIF_C17_ROW") == "" {
 		s.Inconclusive("the vectorized path never handled a query")
 	}
 }
@@ -780,7 +880,13 @@ func spansShards(q aggQuery) bool {
 			return false
 		}
 	}
-	return q.hasAgg && len(q.groupBy) > 0
+	if !q.hasAgg || len(q.groupBy) == 0 {
+		return false
+	}
+	if q.name == "mb" || q.name == "mt" {
+		return true // group tags vary per row (mb) / every group holds six series (mt)
+	}
+	return len(q.groupBy) == 1 // dataset ma: svc (or region) alone groups several series; (svc, region) identifies one
 }
 
 func diffAgg(got, want map[string]int64, q aggQuery) string {
